@@ -134,7 +134,20 @@ def run(ctx):
 
         return bool(cap_nodes) and not any(_nx.has_path(g_, s_, head) for s_ in g_.successors(head) if s_ in fa_.cfg.loop_body(head)) if head in g_ else False
 
-    okcap = len(caps) >= 1 and all(any(isinstance(s, ast.Break) for s in c_.ast.body) for c_ in caps) and len(cons) == 1 and _cycle_tests_cap(la, wl.id, caps)
+    # the cap may break directly, or only while the tolerance has not been reached (then the loop test ends the loop on the
+    # same cycle): `if cap: break` or `if cap: if condition > tolerance: break`
+    def _breaks(c_):
+        for s_ in c_.ast.body:
+            if isinstance(s_, ast.Break):
+                return True
+            if isinstance(s_, ast.If) and canon(s_.test) in (cexpr("self.condition > self.tolerance"),) and any(isinstance(b_, ast.Break) for b_ in s_.body):
+                return True
+        return False
+
+    if not caps:
+        caps = [n for n in la.nodes() if n.kind == "if" and n.id in body and any(canon(e_) == cexpr("self.iteration >= self.max_iteration") and t_ for e_, t_ in conjuncts(n.ast.test, True))
+                and all(t_ and canon(e_) in (cexpr("self.iteration >= self.max_iteration"), cexpr("self.condition > self.tolerance")) for e_, t_ in conjuncts(n.ast.test, True))]
+    okcap = len(caps) >= 1 and all(_breaks(c_) or any(isinstance(s, ast.Break) for s in c_.ast.body) for c_ in caps) and len(cons) == 1 and _cycle_tests_cap(la, wl.id, caps)
     ctx.ob("R-ORDER", "C15.2", lp, "the iteration cap is tested on every cycle of the loop and breaks it", okcap, "")
     # a run that stopped at the cap must not advance when it is run again: the cap has to be tested between the entry of the
     # function and the first consume_sample as well (loop guard, or a test that precedes consume_sample in the body)
@@ -178,7 +191,54 @@ def run(ctx):
         ok = ("self.finalised", False) in facts or ("self.prior_sampling", True) in facts
         ctx.ob("R-DOM", "C15.3", lp, "finalise() is reached only when the run is not already finalised", ok, f"guards {facts}")
         if ("self.prior_sampling", True) not in facts:
-            ctx.ob("R-DOM", "C15.3", lp, "after the loop the live points are consumed only if the tolerance was reached (not when cut short by the cap)", ("self.condition <= self.tolerance", True) in facts, f"guards {facts}")
+            from ..q import holds as _holds153
+
+            ctx.ob("R-DOM", "C15.3", lp, "after the loop the live points are consumed only if the tolerance was reached (not when cut short by the cap)", ("self.condition <= self.tolerance", True) in facts or _holds153(guard_facts(la, nid), "self.condition <= self.tolerance", True) or _holds153(guard_facts(la, nid), "self.condition > self.tolerance", False), f"guards {facts}")
+    # ... and conversely: however the loop is left, a run whose tolerance has been reached is finalised before the function
+    # returns.  The loop is abstracted by its exits - the normal exit (test false, then the `else:` clause if there is one)
+    # and every `break` (with the facts its own guards give) - and the statements after it are summarised path by path: a
+    # returning path either calls finalise() or carries a fact that excludes "tolerance reached and not yet finalised".
+    from ..summ import summarise as _summ153
+    from ..q import holds as _h153
+    import copy as _cp153
+
+    wst = wl.ast
+    def _after(stmts_, target_):
+        for i_, s_ in enumerate(stmts_):
+            if s_ is target_:
+                return stmts_[i_ + 1:]
+            for fld_ in ("body", "orelse", "finalbody"):
+                sub_ = getattr(s_, fld_, None)
+                if isinstance(sub_, list) and any(x_ is target_ for b_ in sub_ for x_ in ast.walk(b_)):
+                    r_ = _after(sub_, target_)
+                    return (r_ or []) + stmts_[i_ + 1:]
+        return None
+
+    post_ = _after(lp.node.body, wst) or []
+    scenarios = [("the loop test fails", [(_cp153.deepcopy(wst.test), False)], list(wst.orelse))]
+    for bn_ in [n_ for n_ in la.nodes() if n_.kind == "stmt" and isinstance(n_.ast, ast.Break) and n_.id in body]:
+        inner_ = [(e_, t_) for e_, t_ in guard_facts(la, bn_.id) if any(x_ is e_ or any(y_ is e_ for y_ in ast.walk(x_)) for s_ in wst.body for x_ in ast.walk(s_) if isinstance(x_, (ast.If,)) for x_ in [x_.test])]
+        scenarios.append((f"break at line {getattr(bn_.ast, '_orig_lineno', bn_.ast.lineno)}", [(_cp153.deepcopy(e_), t_) for e_, t_ in inner_], []))
+    for label_, facts0_, first_ in scenarios:
+        fn_ = ast.FunctionDef(name="abstract", args=ast.arguments(posonlyargs=[], args=[ast.arg(arg="self")], kwonlyargs=[], kw_defaults=[], defaults=[]), body=[_cp153.deepcopy(s_) for s_ in first_ + post_] or [ast.Pass()], decorator_list=[], type_params=[])
+        ast.fix_missing_locations(fn_)
+        bad_ = []
+        for pa_ in _summ153(fn_):
+            if pa_.end == "raise":
+                continue
+            gl_ = facts0_ + list(pa_.guards)
+            calls_fin = any(e_[0] == "call" and canon(e_[1].func) == "self.finalise" for e_ in pa_.effects)
+            EXC_ = (("self.condition > self.tolerance", True), ("self.condition <= self.tolerance", False), ("self.finalised", True), ("self.prior_sampling", True))
+            excused = any(_h153(gl_, t_, v_) for t_, v_ in EXC_)
+            # a failed conjunction all of whose conjuncts, when false, are such a fact (`not (not finalised and tolerance reached)`)
+            for e_, t_ in gl_:
+                if t_ is False and isinstance(e_, ast.BoolOp) and isinstance(e_.op, ast.And) and all(any(_h153([(v_, False)], tx_, vx_) for tx_, vx_ in EXC_) for v_ in e_.values):
+                    excused = True
+                if t_ is True and isinstance(e_, ast.BoolOp) and isinstance(e_.op, ast.Or) and all(any(_h153([(v_, True)], tx_, vx_) for tx_, vx_ in EXC_) for v_ in e_.values):
+                    excused = True
+            if not (calls_fin or excused):
+                bad_.append([(canon(e_)[:40], t_) for e_, t_ in gl_])
+        ctx.ob("R-DOM", "C15.3", lp, f"leaving the loop because {label_.split(' at line')[0]}: a run that has reached its tolerance is finalised before the function returns", not bad_, f"{label_}: path(s) that return without finalise() although the tolerance may have been reached: {bad_[:2]}")
     nf = ctx.fn(NS + ".finalise")
     nfa = FA(nf)
     fl = nfa.find(lambda s: isinstance(s, ast.Assign) and any(is_self_attr(t, "finalised") for t in s.targets) and const(s.value, True))
